@@ -143,9 +143,20 @@ pub fn run(tier: &str, seed: u64, replay: Option<String>) -> i32 {
         ind_steps.push(json!({"base": b, "edits": [], "what": "intact"}));
         let (links, bridges) = link_ptrs(&v);
         // every single link fault
+        // redirect targets: a fresh id, the nil id, and the first id of EVERY other collection
+        // (an id that exists - but in the wrong collection - is still a missing element)
+        let mut targets: Vec<String> = vec!["fresh".into(), "nil".into()];
+        for (name, path) in closure::COLLECTIONS {
+            if !closure::collection(&v, path).is_empty() {
+                targets.push(format!("other:{}", name));
+            }
+        }
         for p in &links {
-            for to in ["fresh", "nil", "other"] {
-                let s = json!({"base": b, "edits": [MEdit::IdRedirected{ptr: p.clone(), to: to.into()}], "what": "single"});
+            for to in &targets {
+                if modelfault::link_target_collection(p) == to.strip_prefix("other:") {
+                    continue;
+                }
+                let s = json!({"base": b, "edits": [MEdit::IdRedirected{ptr: p.clone(), to: to.clone()}], "what": "single"});
                 if small && (thorough || rng.chance(1, 6)) {
                     ind_steps.push(s.clone());
                 }
@@ -172,8 +183,12 @@ pub fn run(tier: &str, seed: u64, replay: Option<String>) -> i32 {
                 let mut edits: Vec<MEdit> = idx[..k].iter().map(|i| all[*i].clone()).collect();
                 // mix the redirect targets
                 for e in edits.iter_mut() {
-                    if let MEdit::IdRedirected { to, .. } = e {
-                        *to = rng.pick(&["fresh", "nil", "other"]).to_string();
+                    if let MEdit::IdRedirected { to, ptr } = e {
+                        let cand: Vec<&String> = targets
+                            .iter()
+                            .filter(|t| modelfault::link_target_collection(ptr) != t.strip_prefix("other:"))
+                            .collect();
+                        *to = (*rng.pick(&cand)).clone();
                     }
                 }
                 steps.push(json!({"base": b, "edits": edits, "what": "multi"}));
@@ -288,7 +303,7 @@ pub fn run(tier: &str, seed: u64, replay: Option<String>) -> i32 {
         level: "fault_enumeration".into(),
         evaluations,
         distinct_nontrivial: broken_sets,
-        rule: "for the 7 shipped models, the 12 converted projects and the minimal editor-built models: every link of the five checked kinds redirected to a fresh id, the nil id and an id of another collection, every non-zero bridge length negated (singles, all of them in both tiers); seeded sets of 2..20 simultaneous faults; edit histories (every space / construction / wall deleted, collections emptied, walls or windows duplicated after a fault). Ground truth is recomputed from the loaded model after the edits (multiset of ids whose target is absent + bridges with l<0) and compared with the multiset of ids in check(); also check() must not change as_json() and energy_indicators().warnings must equal check(). Non-trivial = the loaded model has at least one broken link; distinct by content hash".into(),
+        rule: "for the 7 shipped models, the 12 converted projects and the minimal editor-built models: every link of the five checked kinds redirected to a fresh id, the nil id and the first id of every other collection of the model, every non-zero bridge length negated (singles, all of them in both tiers); seeded sets of 2..20 simultaneous faults; edit histories (every space / construction / wall deleted, collections emptied, walls or windows duplicated after a fault). Ground truth is recomputed from the loaded model after the edits (multiset of ids whose target is absent + bridges with l<0) and compared with the multiset of ids in check(); also check() must not change as_json() and energy_indicators().warnings must equal check(). Non-trivial = the loaded model has at least one broken link; distinct by content hash".into(),
         samples,
         exhaustive: true,
         extra,
